@@ -556,6 +556,14 @@ Theorem prefail_never_executed_eager : forall g pick fuel,
 Proof. intros g pick fuel Hnd. exact (eager_clean g Hnd pick fuel). Qed.
 Print Assumptions prefail_never_executed_eager.
 
+(* Workflows with branches, control-only or data-only edges (Model/EagerSkip.v), every schedule *)
+Theorem prefail_never_executed_workflow : forall fixed pick G fuel,
+  NoDup (map n_id (sg_nodes G)) ->
+  forall y i, In (y, i) (snd (fst (seager fixed pick G fuel))) ->
+  forall n, In n (sg_nodes G) -> n_id n = y -> n_fail n <> 4%N.
+Proof. intros fixed pick G fuel Hnd. exact (seager_clean fixed pick G fuel Hnd). Qed.
+Print Assumptions prefail_never_executed_workflow.
+
 (* the composed system, batch and eager: at every moment of every path (every interleaving of executors,
    collector and run loop) no execution of such a node has been created *)
 Theorem run_prefail_never_executed : forall needAll m g F s r,
